@@ -287,6 +287,9 @@ def norm_once(tmp, n, text, eol, fix, dest):
     argv = (['-e'] if eol else []) + (['-f'] if fix else [])
     if dest == 'ofile':
         pout = os.path.join(tmp, 'out%d.x12' % n)
+        # the output path already exists (an earlier run wrote there): -o names the file to WRITE, stale content must go
+        with open(pout, 'w', encoding='ascii', newline='') as f:
+            f.write('STALE*CONTENT*OF*AN*EARLIER*RUN~\n' * 3)
         argv += ['-o', pout]
     elif dest == 'inplace':
         argv += ['-i']
